@@ -82,7 +82,9 @@ func propC13(c c13Case) hh.Verdict {
 	if !model.EqualIss(vi, pi) {
 		return hh.Fail("issues differ:\n validate %s\n parse    %s", fmtIss(vi), fmtIss(pi))
 	}
-	if !posts || len(vi) == 0 {
+	linear := !failing
+	c.Root.Walk(func(n *model.Node) { linear = linear && len(n.Fields) <= 1 })
+	if !posts || len(vi) == 0 || linear {
 		if g, w := model.CanonJSON(pdest.Elem()), model.CanonJSON(vdest.Elem()); g != w {
 			return hh.Fail("values differ: parse left %s, validate left %s", g, w)
 		}
@@ -140,6 +142,12 @@ func genC13(rt *rapid.T, cfg model.GenCfg, failingPost bool) c13Case {
 		g.Cfg = saved
 		return c13Case{Root: root, Value: g.GenTyped(root)}
 	}
+	if !failingPost && rapid.IntRange(0, 4).Draw(rt, "linear") == 0 {
+		// schemas whose visit order is fixed (every struct has one field, slices go by index): the documented
+		// global gating of PostTransforms then gives one determined result, also when issues exist
+		g.Cfg.MaxFields, g.Cfg.ManyFields, g.Cfg.PPost, g.Cfg.PTestSat = 1, false, 0.35, 0.7
+		g.Cfg.RootKinds = []string{model.KSlice, model.KStruct, model.KSlice}
+	}
 	root = g.GenNode(cfg.MaxDepth, true)
 	if failingPost {
 		var nodes []*model.Node
@@ -161,7 +169,7 @@ func TestC13(t *testing.T) {
 	h := hh.Start(t, "C13",
 		"cases = (schema without Preprocess, fully populated typed value: no zero or white-space-only leaf, no empty slice, no nil pointer), mostly valid with some violated nodes; schemas include Catch, Default, custom tests, IssuePath, own-node mutating PostTransforms and (second sub-check) one failing PostTransform returning an error or a ZogIssue; non-trivial = at least one issue, or a PostTransform, or depth >= 2; distinct = FNV-1a of the case JSON",
 		"differential oracle: Validate(&v) against Parse(toMap(v), &fresh) must give equal multisets of (path, code, type, message) and equal resulting values",
-		"values are compared only when no PostTransform is present or no issue occurred; cases where issues coexist with a PostTransform that an enclosing data-dependent test could observe are skipped (order-dependent by the documented gating)")
+		"values are compared when no PostTransform is present, or no issue occurred, or the schema's visit order is fixed (every struct has at most one field: a fifth of the cases are generated that way); cases where issues coexist with a PostTransform that an enclosing data-dependent test could observe are skipped (order-dependent by the documented gating)")
 	defer h.Finish()
 	cfg := model.DefaultCfg("validate")
 	cfg.FullyPop = true
